@@ -341,6 +341,15 @@ def run_case(prog, cfg=None, faults=None, cleanups=None, hooks=False, record_eve
                     if cleanups and "tag" not in name and "step" not in name:
                         register_cleanups(ctx, ("hook", name, ref))
                     f = faults.get(k)
+                    if f == "skip":
+                        # user code that EXCLUDES the element concerned at run time (documented: feature/rule/scenario.skip())
+                        if args and "tag" not in name and "step" not in name:
+                            target = args[0]
+                        else:
+                            target = getattr(ctx, "scenario", None) or getattr(ctx, "rule", None) or \
+                                getattr(ctx, "feature", None)
+                        if target is not None:
+                            target.skip("excluded by hook %s" % name)
                     if f == "exc":
                         raise HookFault("fault in %s #%d" % (name, k))
                     if f == "assert":
